@@ -334,6 +334,52 @@ pub fn run_session<W: Write, O: Fn(&W) -> Obs>(kind: &str, w: W, kvs: &[Kv], obs
     log
 }
 
+/// A caller that IGNORES errors: new, then every add/insert, then into_inner/finish, each call
+/// under catch_unwind. Stops only when there is no builder (constructor failed) or a call panicked
+/// (the panic would have unwound through the caller).
+pub struct ContLog {
+    /// "ok" | "err(kind)" | "err-not-io[..]" | "panic" per call made, constructor first
+    pub calls: Vec<String>,
+    /// result of into_inner()/finish(), None if it was never reached
+    pub fin: Option<String>,
+}
+pub fn run_session_continue<W: Write>(kind: &str, w: W, kvs: &[Kv]) -> ContLog {
+    use std::panic::{catch_unwind, AssertUnwindSafe};
+    let (base, use_finish) = match kind.strip_suffix("+finish") {
+        Some(b) => (b, true),
+        None => (kind, false),
+    };
+    let mut log = ContLog { calls: vec![], fin: None };
+    let mut b = match catch_unwind(AssertUnwindSafe(move || AnyBuilder::new(base, w))) {
+        Ok(r) => {
+            log.calls.push(Status::of(&r).show());
+            match r {
+                Ok(b) => b,
+                Err(_) => return log,
+            }
+        }
+        Err(_) => {
+            log.calls.push("panic".to_string());
+            return log;
+        }
+    };
+    for (k, v) in kvs {
+        match catch_unwind(AssertUnwindSafe(|| b.step(base, k, *v))) {
+            Ok(r) => log.calls.push(Status::of(&r).show()),
+            Err(_) => {
+                log.calls.push("panic".to_string());
+                return log;
+            }
+        }
+    }
+    let r = catch_unwind(AssertUnwindSafe(move || if use_finish { b.finish() } else { b.into_inner().map(|_| ()) }));
+    log.fin = Some(match r {
+        Ok(r) => Status::of(&r).show(),
+        Err(_) => "panic".to_string(),
+    });
+    log
+}
+
 /// The in-memory reference: bytes, and per API call the chunks written through the CountingWriter
 /// (every write call of an all-accepting sink is one write_all chunk; the last write of the
 /// session is the 4 checksum bytes, which bypass the CountingWriter).
